@@ -49,6 +49,13 @@ def type_test(ip, st, v, tyname):
             return TRUE if tyname == "tuple" else FALSE
         if isinstance(v, View):
             return TRUE if getattr(v, "pykind", "list") == tyname else FALSE
+        if tyname == "list" and ip.c is not None and ip.c.ghost.get("dict_objects") and (
+                (isinstance(v, Ref) and isinstance(st.heap[v.cid], ValCell)) or (isinstance(v, Opaque) and v.sort == "Val")):
+            # a context value may be a python list (lists of strings are modelled: pyvc/dictobj.py); an abstract predicate
+            # that every modelled list satisfies
+            from . import dictobj
+            from .dicts import dterm
+            return dictobj.is_list_val(ip, st, dterm(ip, st, v))
         if isinstance(v, Ref):
             cell = st.heap[v.cid]
             if isinstance(cell, (LstCell, PyListCell)):
@@ -234,6 +241,8 @@ def call_builtin(ip, st, name, pos, kws, node):
         v = pos[0]
         if isinstance(v, Ref):
             cell = st.heap[v.cid]
+            if type(cell).__name__ == "PySetCell" and cell.items != "unknown":
+                return [(st, Num(I(len(cell.items))))]
             if isinstance(cell, PyDictCell):
                 return [(st, Num(I(len(cell.items))))]
             if isinstance(cell, ValCell):
@@ -245,6 +254,11 @@ def call_builtin(ip, st, name, pos, kws, node):
             return [(st, Num(T("(%s %s)" % (f, v.t.s), "Int")))]
         if isinstance(v, Str):
             return [(st, Num(I(len(v.s))))]
+        if isinstance(v, Opaque) and v.sort == "V":
+            from .vmembers import attr_value          # len() of an abstract flow value: declared v_members {"__len__": "attr:Int"}
+            r = attr_value(ip, v, "__len__")
+            if r is not None:
+                return [(st, r)]
         return [(st, Num(ip.as_view(st, v).len))]
     if name == "range":
         if len(pos) == 1:
@@ -272,6 +286,9 @@ def call_builtin(ip, st, name, pos, kws, node):
             return [(st, ip.items_view([Tup([Num(I(k)), x]) for k, x in enumerate(v.items)]))]
         return [(st, View(v.len, lambda i: Tup([Num(i), v.get(i)])))]
     if name == "zip":
+        if any(isinstance(p, Ref) and isinstance(st.heap.get(p.cid), IterCell) for p in pos):
+            from .lib_flow import zip_iter          # zip(range(n), <iterator>): pulls lazily, at most n values
+            return zip_iter(ip, st, pos)
         views = [ip.as_view(st, p) for p in pos]
         if all(v.items is not None for v in views):
             n = min(len(v.items) for v in views)
@@ -438,6 +455,26 @@ def call_builtin(ip, st, name, pos, kws, node):
         raise U("super() without explicit (Class, self)")
     if name == "setattr":
         raise U("setattr with computed name")
+    if name in ("object.__setattr__", "object.__getattribute__"):
+        if not (len(pos) >= 2 and isinstance(pos[0], Ref) and isinstance(st.heap[pos[0].cid], ObjCell) and isinstance(pos[1], Str)):
+            raise U("%s with a computed name / on a value that is no instance" % name)
+        cell = st.heap[pos[0].cid]
+        if name == "object.__setattr__":
+            if len(pos) != 3:
+                raise U("object.__setattr__ arity")
+            fields = dict(cell.fields)
+            fields[pos[1].s] = pos[2]
+            st.heap[pos[0].cid] = ObjCell(cell.cls, fields)
+            return [(st, NONE)]
+        if pos[1].s in cell.fields:
+            return [(st, cell.fields[pos[1].s])]
+        raise U("object.__getattribute__ of an attribute the class spec does not declare: " + pos[1].s)
+    if name in ("map", "set"):
+        from .lib_split import builtin_map, builtin_set          # (Split.__init__ / check_sequence_type)
+        return (builtin_map if name == "map" else builtin_set)(ip, st, pos, kws)
+    if name == "slice":
+        from .lib_flow import builtin_slice
+        return builtin_slice(ip, st, pos)
     raise U("builtin " + name)
 
 
@@ -474,6 +511,10 @@ def consume_view(ip, st, v):
         if hasattr(cell, "upstream"):
             nc.upstream = cell.upstream
         st.heap[v.cid] = nc
+        if getattr(cell, "consumes", None):
+            from .lib_run import consume_exact        # list(el.run(it)): the abstract run has pulled what it pulls
+            nc.consumes = cell.consumes
+            consume_exact(ip, st, v)
         if getattr(cell, "shared", None) is not None:
             # islice over another iterator: advance the underlying iterator as well
             under = cell.shared
@@ -485,6 +526,9 @@ def consume_view(ip, st, v):
 
 def call_method(ip, st, recv, name, pos, kws, node):
     reg = ip.reg
+    if isinstance(recv, Ref) and type(st.heap.get(recv.cid)).__name__ == "PySetCell":
+        from .lib_split import set_method
+        return set_method(ip, st, recv, name, pos, kws)
     if name in ("startswith", "replace") and ((isinstance(recv, Opaque) and recv.sort in ("Val", "Key")) or
                                                (isinstance(recv, Ref) and isinstance(st.heap.get(recv.cid), ValCell))):
         # a string method on a symbolic string / on a context item that must be a string (obligation): a function of it
@@ -523,6 +567,11 @@ def call_method(ip, st, recv, name, pos, kws, node):
     if isinstance(recv, Opaque) and recv.sort == "Key":
         from .dicts import key_method
         return key_method(ip, st, recv, name, pos, kws)
+    if isinstance(recv, Opaque) and recv.sort == "V":
+        from .vmembers import method_call          # a method of an abstract flow value declared in the contract
+        r = method_call(ip, st, recv, name, pos, kws)
+        if r is not None:
+            return r
     if isinstance(recv, Opaque) and recv.sort == "V" and name == "write" and len(pos) == 1 and "$fs" in st.notes:
         # a data object that writes itself to the given path: the file exists afterwards, its content is unspecified
         from .lib import need_fs, fs_store
@@ -544,6 +593,11 @@ def call_method(ip, st, recv, name, pos, kws, node):
 
 def list_method(ip, st, recv, name, pos, kws):
     reg = ip.reg
+    if not recv.path and recv.cid in st.notes.get("deques", ()):
+        from .lib_flow import deque_method          # a collections.deque: bounded append / appendleft, popleft
+        r = deque_method(ip, st, recv, name, pos, kws)
+        if r is not None:
+            return r
     t = ip.deref(st, recv)
     el = reg.lst_elem[t.sort]
     if name in ("append", "extend", "insert") and pos:
@@ -583,6 +637,12 @@ def list_method(ip, st, recv, name, pos, kws):
         ip.store(st, recv, reg.l_mk(t.sort, reg.l_arr(t), last))
         return [(st, v)]
     if name == "extend":
+        if isinstance(pos[0], Ref) and getattr(st.heap.get(pos[0].cid), "gen_args", None) and not ip.spec_mode \
+                and reaches(st, st.heap[pos[0].cid].gen_args, recv.cid):
+            # L.extend(g) where g is the suspended call of a generator function under contract and L can be reached from
+            # g's arguments: the generator runs WHILE the list grows (it may iterate the very list, never finishing); the
+            # functional model of the call (content fixed at the call) does not describe that -- not proved, never assumed
+            ip.emit("safety", "generator-consumer-non-interference (extend of a list the suspended generator can reach)", st, FALSE)
         src = consume_view(ip, st, pos[0])
         n = reg.l_len(t)
         nt = reg.new("ext", t.sort)
@@ -602,6 +662,31 @@ def list_method(ip, st, recv, name, pos, kws):
     if name == "__len__":
         return [(st, Num(reg.l_len(t)))]
     raise U("list method " + name)
+
+
+def reaches(st, roots, cid):
+    """is the heap cell `cid` reachable from the values `roots` (through object fields, list / dict items, iterators)?"""
+    seen, todo = set(), list(roots)
+    while todo:
+        v = todo.pop()
+        if isinstance(v, Tup):
+            todo += v.items
+            continue
+        if not isinstance(v, Ref) or v.cid in seen:
+            continue
+        if v.cid == cid:
+            return True
+        seen.add(v.cid)
+        cell = st.heap.get(v.cid)
+        if isinstance(cell, ObjCell):
+            todo += list(cell.fields.values())
+        elif isinstance(cell, PyListCell):
+            todo += list(cell.items)
+        elif isinstance(cell, PyDictCell):
+            todo += list(cell.items.values())
+        elif isinstance(cell, IterCell):
+            todo += [getattr(cell, a, None) for a in ("live", "shared", "upstream")]
+    return False
 
 
 def elem_term(ip, st, v, el):
@@ -699,6 +784,15 @@ def pydict_method(ip, st, recv, cell, name, pos, kws):
         return [(st, ip.items_view([Str(k) for k in cell.items]))]
     if name == "values":
         return [(st, ip.items_view(list(cell.items.values())))]
+    if name == "update" and not pos:
+        # d.update(k1=v1, ...)
+        from .dicts import note_store
+        new = dict(cell.items)
+        for k2, v2 in kws.items():
+            note_store(ip, st, recv, v2)
+            new[k2] = v2
+        st.heap[recv.cid] = PyDictCell(new)
+        return [(st, NONE)]
     if name == "update":
         src = pos[0]
         from .dicts import note_store
@@ -708,6 +802,14 @@ def pydict_method(ip, st, recv, cell, name, pos, kws):
             new.update(st.heap[src.cid].items)
             st.heap[recv.cid] = PyDictCell(new)
             return [(st, NONE)]
+        if isinstance(src, Ref) and isinstance(st.heap[src.cid], ValCell) and not recv.path and all(
+                isinstance(x, (Str, Num, Bool, NoneV)) or (isinstance(x, Opaque) and x.sort in ("Key", "Val"))
+                for x in cell.items.values()):
+            # a dictionary display with immutable items that is updated from a dictionary with unknown keys: from now on
+            # the same object holds a dictionary VALUE (only its representation changes)
+            from .dicts import dterm, val_method
+            st.heap[recv.cid] = ValCell(dterm(ip, st, recv))
+            return val_method(ip, st, recv, name, pos, kws)
         raise U("dict.update with %r" % (src,))
     raise U("dict method " + name)
 
